@@ -1,7 +1,7 @@
 (* One entry point for the extracted model: kernel id + arguments -> result lines. *)
 From Coq Require Import List ZArith Bool.
 Import ListNotations.
-From PF Require Import RunC01 RunC03 RunC04 RunC05 RunC06 RunC08 RunC09 RunC10 RunC11 RunC12 RunC14 RunC15 RunC16 RunC17 RunC18 RunC19 RunC20.
+From PF Require Import RunC01 RunC03 RunC04 RunC05 RunC06 RunC08 RunC09 RunC10 RunC11 RunC12 RunC13 RunC14 RunC15 RunC16 RunC17 RunC18 RunC19 RunC20.
 Open Scope Z_scope.
 
 Definition run (k : Z) (args : list (list Z)) : list (list Z) :=
@@ -15,6 +15,7 @@ Definition run (k : Z) (args : list (list Z)) : list (list Z) :=
   else if (1000 <=? k) && (k <? 1100) then run_c10 k args
   else if (1100 <=? k) && (k <? 1200) then run_c11 k args
   else if (1200 <=? k) && (k <? 1300) then run_c12 k args
+  else if (1300 <=? k) && (k <? 1400) then run_c13 k args
   else if (1400 <=? k) && (k <? 1500) then run_c14 k args
   else if (1500 <=? k) && (k <? 1600) then run_c15 k args
   else if (1600 <=? k) && (k <? 1700) then run_c16 k args
